@@ -1,6 +1,8 @@
 """C02 — rolling drivers call back once per position with exactly the right window."""
 CFG = dict(
     bins=["c02"],
+    # harness-pl/ (tevec with the `polars` feature), thorough tier only — see tools/propcfg/C07.py
+    bins_thorough_pl=["c02pl"],
     imports=["Run.RunC02"],
     exhaustive=True,
     rule="exhaustive: every len 0..=7 (thorough 0..=12) x window 1..=len+3 x 10 driver entry points "
@@ -9,7 +11,12 @@ CFG = dict(
          "backends (Vec, [T], [T;N], Arc<Vec>, VecDeque at 3 ring offsets, ndarray owned / step 2 / "
          "reversed views, option view); one series per length with NaNs sprinkled in; a recording "
          "callback logs every invocation; compared exactly with the model's call trace and output; "
-         "non-trivial = every case (each is a distinct configuration); tags nt=0 mark trivial ones",
+         "non-trivial = every case (each is a distinct configuration); tags nt=0 mark trivial ones. THOROUGH TIER ONLY, "
+         "binary c02pl of harness-pl/ (tevec built with feature polars): the same recording callback, len 0..=12 x window "
+         "1..=len+3 x the 10 entry points x Polars Float64Chunked inputs of 1, 2, 3 chunks (nulls where the series has NaN; "
+         "by value and by reference), the second series a Vec or a Polars array with another chunking, slice forms "
+         "receiving Polars slices that span chunk boundaries; compared with the default-body model (iterator body "
+         "returned, index body into the caller's buffer) over Option<f64> elements",
     theorem_hint="Props/C02.v: C02_once_in_order_*, C02_removed_arg_*, C02_slice_arg_*",
     level_text="Proof: 13 theorems (Props/C02.v, axiom-free) about the Gallina model of all eight drivers and both "
                "bodies, for every series, window >= 1 and every stateful callback: one call per position in order, "
@@ -17,6 +24,7 @@ CFG = dict(
                "of the two bodies for add-emit-remove callbacks. The model is tied to the code by an exhaustive "
                "small-scope differential run (recording callback, all entry points x backends x output paths).",
     level_note="Trusted: Coq kernel; the hand-written model of view.rs/vec.rs/ndarray.rs driver bodies and of std's "
-               "repeat_n/chain/zip/enumerate; the harness and comparator. Polars backend not exercised (separate crate).",
+               "repeat_n/chain/zip/enumerate; the harness and comparator. Polars backend: exercised by c02pl (separate crate "
+               "harness-pl/) in the thorough tier only.",
     trusted=["the model of std iterator adaptors (repeat_n, chain, zip, enumerate) used by the iterator bodies"],
 )
